@@ -676,3 +676,149 @@ Proof.
   - destruct (o_out (model i)) as [[e c]|] eqn:O; [|reflexivity].
     destruct (outcome_consistent i e c NS O) as [_ [B _]]. rewrite B. reflexivity.
 Qed.
+
+(* ---------- the statement without a hypothesis on the level ---------- *)
+
+(* an illegal statement verifies nothing: no verifier exists *)
+Theorem illegal_statement : forall i, get_level (i_level i) (i_override i) = None ->
+  model i = mk_o EPolicy None "" None false.
+Proof. intros i H. unfold model. rewrite H. reflexivity. Qed.
+
+Lemma get_level_skip_no_override : forall ov l, get_level "skip" ov = Some l -> ov = [].
+Proof.
+  intros ov l H. destruct (get_level_base _ _ _ H) as [base [_ [[Hov _]|[_ [Hns _]]]]].
+  - exact Hov.
+  - exfalso. apply Hns. reflexivity.
+Qed.
+
+(* every success: either the statement is the skip level (without override), or
+   the statement is legal, not skip, and the envelope is accepted on its merits *)
+Theorem success_cases : forall i, o_err (model i) = ENone ->
+  (i_level i = "skip" /\ i_override i = []) \/
+  (NonSkip (i_level i) (i_override i) /\ Accepted i).
+Proof.
+  intros i H. destruct (get_level (i_level i) (i_override i)) as [l|] eqn:HL.
+  - destruct (is_skip l) eqn:Hs.
+    + left. pose proof (proj1 (skip_iff_named _ _ _ HL) Hs) as E. split; [exact E|].
+      rewrite E in HL. eapply get_level_skip_no_override; eassumption.
+    + right. assert (NS : NonSkip (i_level i) (i_override i)) by (exists l; split; assumption).
+      split; [exact NS|]. apply (success_iff _ NS). exact H.
+  - rewrite (illegal_statement _ HL) in H. discriminate.
+Qed.
+
+(* what the skip level returns: nothing is consulted, no integrity result, no
+   envelope content, and (notation.VerifyBlob) the zero descriptor *)
+Theorem skip_verifies_nothing : forall i, i_level i = "skip" -> i_override i = [] ->
+  o_touched (model i) = false /\ o_iact (model i) = "" /\
+  (forall e c, o_out (model i) = Some (e, c) -> e = ENone /\ c = 0%N) /\
+  (forall t, o_desc (model i) = Some t -> t = zero_target).
+Proof.
+  intros i HL HO. unfold model. rewrite HL, HO.
+  destruct (get_level "skip" []) as [l|] eqn:G; [|vm_compute in G; discriminate].
+  assert (Hs : is_skip l = true) by (apply (skip_iff_named _ _ _ G); reflexivity).
+  assert (P : prefix l i = inl (mk_o ENone (Some (ENone, 0%N)) "" None false)).
+  { unfold prefix. rewrite Hs. reflexivity. }
+  assert (K : forall o, o = mk_o ENone (Some (ENone, 0%N)) "" None false ->
+    o_touched o = false /\ o_iact o = "" /\
+    (forall e c, o_out o = Some (e, c) -> e = ENone /\ c = 0%N) /\
+    (forall t, o_desc o = Some t -> t = zero_target)).
+  { intros o ->. simpl. split; [reflexivity|]. split; [reflexivity|]. split.
+    - intros e c X. inversion X. split; reflexivity.
+    - intros t X. discriminate. }
+  assert (KA : forall o, o = mk_o EArg None "" None false ->
+    o_touched o = false /\ o_iact o = "" /\
+    (forall e c, o_out o = Some (e, c) -> e = ENone /\ c = 0%N) /\
+    (forall t, o_desc o = Some t -> t = zero_target)).
+  { intros o ->. simpl. split; [reflexivity|]. split; [reflexivity|]. split.
+    - intros e c X. discriminate.
+    - intros t X. discriminate. }
+  destruct (i_call i) as [d|g|b].
+  - apply K. unfold verify_oci. rewrite P. reflexivity.
+  - apply K. unfold verify_blob. rewrite P. reflexivity.
+  - unfold notation_verify_blob, verify_blob. rewrite P. simpl.
+    destruct (b_sig_empty b); simpl; [exact (KA _ eq_refl)|].
+    destruct (negb (String.eqb (b_mt b) "") && negb (b_mt_valid b)); simpl; [exact (KA _ eq_refl)|].
+    destruct (negb (String.eqb (b_sigmt b) media_type_jws || String.eqb (b_sigmt b) media_type_cose)); simpl;
+      [exact (KA _ eq_refl)|].
+    split; [reflexivity|]. split; [reflexivity|]. split.
+    + intros e c X. inversion X. split; reflexivity.
+    + intros t X. inversion X. reflexivity.
+Qed.
+
+(* ---------- no configuration helps, with the override ---------- *)
+
+Theorem no_configuration_helps_strong : forall i lvl ov rest touch,
+  ~ Facts i ->
+  o_err (model (reconfig i lvl ov rest touch)) = ENone ->
+  lvl = "skip" /\ ov = [].
+Proof.
+  intros i lvl ov rest touch HF H.
+  destruct (success_cases _ H) as [[E1 E2]|[_ [HI [_ [_ HT]]]]].
+  - simpl in E1, E2. split; assumption.
+  - exfalso. apply HF. split; assumption.
+Qed.
+
+(* the three named ways of being wrong, one by one, under every configuration *)
+
+Theorem tampered_rejected : forall i lvl ov rest touch, lvl <> "skip" ->
+  (e_parse (i_env i) = false \/ e_verify (i_env i) <> VOk \/ e_ctype (i_env i) <> media_type_payload_v1) ->
+  o_err (model (reconfig i lvl ov rest touch)) <> ENone.
+Proof.
+  intros i lvl ov rest touch Hn Hbad H.
+  assert (HF : ~ Facts i).
+  { intros [[A [B C]] _]. destruct Hbad as [X|[X|X]]; [congruence | contradiction | contradiction]. }
+  destruct (no_configuration_helps_strong _ _ _ _ _ HF H) as [E _]. contradiction.
+Qed.
+
+Theorem other_artifact_rejected : forall i lvl ov rest touch t, lvl <> "skip" ->
+  e_decode (i_env i) = Some t -> ~ Bound (i_call i) (i_env i) t ->
+  o_err (model (reconfig i lvl ov rest touch)) <> ENone.
+Proof.
+  intros i lvl ov rest touch t Hn HD HB H.
+  assert (HF : ~ Facts i).
+  { intros [_ [t' [HD' [B _]]]]. rewrite HD in HD'. inversion HD'; subst t'. contradiction. }
+  destruct (no_configuration_helps_strong _ _ _ _ _ HF H) as [E _]. contradiction.
+Qed.
+
+Theorem missing_metadata_rejected : forall i lvl ov rest touch k v, lvl <> "skip" ->
+  In (k, v) (i_md i) ->
+  (forall t, e_decode (i_env i) = Some t -> lookup k (t_ann t) <> Some v) ->
+  o_err (model (reconfig i lvl ov rest touch)) <> ENone.
+Proof.
+  intros i lvl ov rest touch k v Hn Hin Hmiss H.
+  assert (HF : ~ Facts i).
+  { intros [_ [t [HD [_ M]]]]. apply (Hmiss t HD). apply M. exact Hin. }
+  destruct (no_configuration_helps_strong _ _ _ _ _ HF H) as [E _]. contradiction.
+Qed.
+
+(* ---------- notation.VerifyBlob: the error when both post-checks are reached ---------- *)
+
+Theorem top_mismatch_sticks : forall i b t a ann, i_call i = CTop b -> NonSkip (i_level i) (i_override i) ->
+  args_ok (CTop b) (i_md i) = true -> b_read_ok b = true -> add_user_metadata [] (i_md i) = Some ann ->
+  Intact (i_env i) -> i_rest i = true -> e_decode (i_env i) = Some t ->
+  alg_of (e_hash (i_env i)) = Some a ->
+  o_err (model i) =
+    (if md_ok t (i_md i)
+     then (if blob_mismatch (mk_t (b_mt b) (digest_of b a) (b_size b) ann) t then EMismatch else ENone)
+     else EMetadata).
+Proof.
+  intros i b t a ann C [l [HL Hs]] HA HR HU HI HRest HD HAlg.
+  rewrite (model_body _ _ HL). unfold body. rewrite C.
+  unfold args_ok in HA. apply andb_true_iff in HA. destruct HA as [HA _].
+  apply andb_true_iff in HA. destruct HA as [HA A3]. apply andb_true_iff in HA. destruct HA as [A1 A2].
+  unfold notation_verify_blob.
+  apply negb_true_iff in A1. rewrite A1.
+  assert (EM' : negb (String.eqb (b_mt b) "") && negb (b_mt_valid b) = false).
+  { apply orb_true_iff in A2. destruct A2 as [E|E]; rewrite E; simpl; [reflexivity | apply andb_false_r]. }
+  rewrite EM', A3. simpl.
+  assert (P : prefix l i = inr (lookup_default "integrity" (snd l), t)).
+  { apply prefix_inr; auto. }
+  assert (G : top_gen b (i_md i) a = Some (mk_t (b_mt b) (digest_of b a) (b_size b) ann)).
+  { apply top_gen_some. split; [exact HR|]. exists ann. split; [exact HU | reflexivity]. }
+  unfold verify_blob. rewrite P, HAlg, G. unfold finish, check_md. simpl.
+  set (d := mk_t (b_mt b) (digest_of b a) (b_size b) ann).
+  destruct (i_md i) as [|kv md].
+  - simpl. destruct (blob_mismatch d t); simpl; [reflexivity|]. rewrite HD. reflexivity.
+  - destruct (md_ok t (kv :: md)); simpl; [|reflexivity].
+    destruct (blob_mismatch d t); simpl; [reflexivity|]. rewrite HD. reflexivity.
+Qed.
